@@ -18,6 +18,7 @@ inductive Act where
   | planUmount (pre : Bytes)    -- list the cached mounts at/below pre, deepest first (unmountLayer)
   | umount (t : Bytes)
   | failIfCached (t : Bytes)    -- refuse (errorIfBusy: overlain) when the cache shows a mount at t
+  | doneIfCached (ts : List Bytes) -- chroot: nothing left to do when the cache shows all of ts mounted
   deriving Repr, DecidableEq, BEq
 
 structure Proc where
@@ -51,6 +52,9 @@ def turn : Nat → Proc → List Bytes → Proc × List Bytes
       else turn fuel { p with pending := ts.map Act.umount ++ rest } k
     | .failIfCached t :: rest =>
       if p.cache.contains t then ({ p with pending := [], failed := true }, k)
+      else turn fuel { p with pending := rest } k
+    | .doneIfCached ts :: rest =>
+      if ts.all p.cache.contains then ({ p with pending := [] }, k)
       else turn fuel { p with pending := rest } k
     | .umount t :: rest =>
       if hasChildMount t k then ({ p with pending := [], failed := true }, k)
@@ -108,6 +112,12 @@ def mountActs (targets : List Bytes) : List Act := [.probe] ++ targets.map .ensu
     then the re-reading of the table -/
 def mountChainActs (layers : List (List Bytes)) : List Act :=
   [.probe] ++ layers.flatMap fun ts => ts.map .ensure ++ [.probe]
+
+/-- chroot into the last layer of a chain: the table is read once; if it shows all of that
+    layer's own mounts (state "mounted") nothing is mounted, otherwise the chain is mounted as
+    by `mount` (Layerdefs.Chroot → Layerdefs.Mount, on the table already read) -/
+def chrootChainActs (layers : List (List Bytes)) : List Act :=
+  [.probe, .doneIfCached (layers.getLast?.getD [])] ++ layers.flatMap fun ts => ts.map .ensure ++ [.probe]
 
 /-- umount of a layer whose children's build roots are `kids` -/
 def umountLayerActs (pre : Bytes) (kids : List Bytes) : List Act :=
